@@ -74,6 +74,7 @@ type Report struct {
 	funcs    map[string]bool
 	anchored map[string]bool
 	leaf     map[string]bool
+	deep     map[string]bool // touched by a rule that looks inside (wins over leaf)
 	sites    int
 }
 
@@ -187,6 +188,10 @@ func (c *Ctx) TouchLeaf(fn *ssa.Function) {
 func (c *Ctx) Touch(fn *ssa.Function) {
 	if fn != nil {
 		c.rep.funcs[FuncName(fn)] = true
+		if c.rep.deep == nil {
+			c.rep.deep = map[string]bool{}
+		}
+		c.rep.deep[FuncName(fn)] = true
 	}
 }
 
@@ -286,7 +291,7 @@ func RunProperty(env *Env, p *Property, tier string) *Report {
 				for _, a := range f.AnonFuncs {
 					push(a, it.d)
 				}
-				if rep.leaf[FuncName(f)] || wiringHubs[FuncName(f)] || it.d >= maxDepth {
+				if rep.leaf[FuncName(f)] && !rep.deep[FuncName(f)] || wiringHubs[FuncName(f)] || it.d >= maxDepth {
 					continue
 				}
 				if nd := cg.Nodes[f]; nd != nil {
